@@ -299,3 +299,12 @@ func init() {
 		seed, _ = strconv.Atoi(s)
 	}
 }
+
+// TrappedStrings returns, under the engine, the string arguments of every
+// real-OS function (Go os/syscall/...) that was reached on this path. Natively
+// it returns nil: the harness then observes real effects instead.
+func TrappedStrings() []string { return nil }
+
+// ExpectTraps tells the engine that this harness reaches real-OS functions on
+// purpose (it inspects their arguments with TrappedStrings).
+func ExpectTraps() {}
